@@ -135,6 +135,20 @@ def initOpen : St :=
   (.stF2 "cost" (.var "start_py") (.var "start_px") (.bin .add (.ld2 "d_from_start" (.var "start_py") (.var "start_px")) (.var "_heuristic2$ret0"))))))))))
   .skip)
 
+def searchTail : St :=
+  (.seq mainLoop
+  .ret)
+
+def searchC : St :=
+  (.seq initOpen
+  (.seq (.setI "num_open" (.sum "is_open"))
+  searchTail))
+
+def searchB : St :=
+  (.seq (.setF "_is_not_crossable1$cell_value" (.ld2 "data" (.var "start_py") (.var "start_px")))
+  (.seq (.scope (ncSt "_is_not_crossable1$cell_value" "_is_not_crossable1$i" "_is_not_crossable1$ret0"))
+  searchC))
+
 def searchSt : St :=
   (.seq (.setI "height" (.dim "data" 0))
   (.seq (.setI "width" (.dim "data" 1))
@@ -146,12 +160,7 @@ def searchSt : St :=
   (.seq (.allocF "cost" [(.dim "data" 0), (.dim "data" 1)] (.lit 0 1))
   (.seq (.allocI "is_open" [(.dim "data" 0), (.dim "data" 1)] (.lit 0))
   (.seq (.allocI "is_closed" [(.dim "data" 0), (.dim "data" 1)] (.lit 0))
-  (.seq (.setF "_is_not_crossable1$cell_value" (.ld2 "data" (.var "start_py") (.var "start_px")))
-  (.seq (.scope (ncSt "_is_not_crossable1$cell_value" "_is_not_crossable1$i" "_is_not_crossable1$ret0"))
-  (.seq initOpen
-  (.seq (.setI "num_open" (.sum "is_open"))
-  (.seq mainLoop
-  .ret)))))))))))))))
+  searchB))))))))))
 
 /-! ### the abstraction: program state ↦ model state -/
 
